@@ -249,10 +249,9 @@ def monitorC07 (cx : Ctx) : List Finding := Id.run do
 def monitorC10 (cx : Ctx) : List Finding := Id.run do
   let mut out : List Finding := []
   if cx.p2p.length < 3 then return []
-  -- A panic is the recorded finding (a survivor adopts an EARLIER cut-off gossiped by a peer it
-  -- still talks to) only if such gossip reached the session: some running endpoint reported a
-  -- player as disconnected at a frame below the one this session holds for it. Any other panic is
-  -- reported under its own clause.
+  -- A panic is the recorded finding (a survivor adopts an EARLIER cut-off gossiped by the peers it
+  -- still talks to) only if such gossip reached the session. Any other panic is reported under
+  -- its own clause.
   for s in cx.p2p do
     let mut tables : List (Nat × List ConnStatus) := []     -- per sender: merged gossip
     let mut prevStatus : List (Bool × Int) := []
@@ -269,11 +268,19 @@ def monitorC10 (cx : Ctx) : List Finding := Id.run do
           tables := (from_, merged) :: tables.filter (·.1 != from_)
         | _ => pure ()
       if c.result == "PANIC" then
-        let explained := tables.any fun (from_, tbl) =>
-          (prevEps.any fun e => e.addr == from_ && !e.spectator && e.state == 2) &&
-          (tbl.zipIdx.any fun (t, h) =>
-            let (_, lf) := prevStatus.getD h (false, -1)
-            t.disconnected && t.lastFrame < lf)
+        -- `update_player_disconnects`, mirrored on what the running endpoints have reported: the
+        -- session adopts an EARLIER cut-off for player `h` iff some running endpoint says `h` is
+        -- disconnected and the minimum of ALL running endpoints' last frames for `h` (whether or not
+        -- they have noticed the drop) lies below the frame this session holds for it.
+        let running := prevEps.filter fun e => !e.spectator && e.state == 2
+        let explained := (List.range prevStatus.length).any fun h =>
+          let reports := running.map fun e =>
+            ((((tables.find? (·.1 == e.addr)).map (·.2)).getD []).getD h ({} : ConnStatus))
+          let (odisc, lf) := prevStatus.getD h (false, -1)
+          let qc := reports.all fun r => !r.disconnected
+          let qm0 := reports.foldl (fun m r => min m r.lastFrame) (2147483647 : Int)
+          let qm := if odisc then qm0 else min qm0 lf
+          !qc && (!odisc || lf > qm) && qm < lf
         if explained then
           out := mkF cx "C10" "panic" c.sid c.lineNo s!"{" ".intercalate c.call} panicked" :: out
         else
@@ -640,8 +647,16 @@ def monitorC15 (cx : Ctx) : List Finding := Id.run do
       prevEvq := if c.call == ["events"] then 0 else evq
       prevRecs := prevRecs
     -- network_stats gate and mirror are checked by the acceptor against the model (class result:stats)
-  -- steady state: only the `timesync` family promises a constant lead
-  if (cx.sc.header.splitOn "family: \"timesync\"").length > 1 && cx.p2p.length == 2 && !cx.anyDisconnect then
+  -- steady state: only the `timesync` family promises a constant lead — and only while both
+  -- sessions actually run: a session held at the prediction threshold (a call that simulates no
+  -- NEW frame: `current_frame` does not move) is not "steadily k frames ahead", the estimate
+  -- extrapolates a peer that keeps moving
+  let running (sid : Nat) : Bool :=
+    let advs := cx.sc.calls.toList.filter fun c => c.sid == sid && c.isAdvOk
+    let curs := (advs.drop (advs.length - 61)).map fun c => (c.snapInt "cur").getD 0
+    (curs.zip (curs.drop 1)).all fun (a, b) => b == a + 1
+  if (cx.sc.header.splitOn "family: \"timesync\"").length > 1 && cx.p2p.length == 2 && !cx.anyDisconnect &&
+      running cx.p2p[0]!.sid && running cx.p2p[1]!.sid then
     let a := cx.p2p[0]!
     let b := cx.p2p[1]!
     let fa := cx.lastAdvSnap a.sid "ahead"
